@@ -663,32 +663,20 @@ fn random_scenario(rng: &mut impl Rng, i: usize, cheavy: bool) -> Value {
     let mut deltas = Vec::new();
     let n = rng.gen_range(3..=8);
     let mut ts = 0u64;
-    // a replica never issues one stamp twice FOR ONE KEY; two keys may well carry the same stamp (every shard of a replica has a
-    // clock of its own, and merged values of different keys coincide too)
-    let mut used: std::collections::HashSet<(String, u64, u64)> = Default::default();
-    let mut last: Option<(String, u64, u64)> = None;
+    let mut used: std::collections::HashSet<(u64, u64)> = Default::default();
     for id in 1..=n {
-        let kind = rng.gen_range(0..6);
-        let key = match kind { 0..=2 => "h".to_string(), _ => format!("s{}", rng.gen_range(1..=2)) };
-        let mut r = rng.gen_range(1..=3);
-        match &last {
-            // four times in ten the stamp of the previous update is taken over as it is (when the key differs)
-            Some((lk, lts, lr)) if *lk != key && rng.gen_range(0..10) < 4 => { ts = *lts; r = *lr; }
-            _ => ts += rng.gen_range(0..=2),
-        }
-        while used.contains(&(key.clone(), ts, r)) || used.contains(&(key.clone(), ts + 1, r)) || used.contains(&(key.clone(), ts + 2, r)) {
+        ts += rng.gen_range(0..=2);
+        let r = rng.gen_range(1..=3);
+        // a replica never issues one stamp twice
+        while !used.insert((ts, r)) || !used.insert((ts + 1, r)) || !used.insert((ts + 2, r)) {
             ts += 1;
         }
-        for d in 0..3 {
-            used.insert((key.clone(), ts + d, r));
-        }
-        last = Some((key.clone(), ts, r));
         let ts1 = ts.max(1);
-        let d = match kind {
-            0 | 1 => json!({"id": id, "k": key, "t": "hset", "f": format!("f{}", rng.gen_range(1..=3)), "v": format!("v{id}"), "ts": ts1 + 1, "r": r}),
-            2 => json!({"id": id, "k": key, "t": "hdel", "f": format!("f{}", rng.gen_range(1..=3)), "ts": ts1 + 2, "r": r}),
-            3 => json!({"id": id, "k": key, "t": "del", "ts": ts1 + 1, "r": r}),
-            _ => json!({"id": id, "k": key, "t": "set", "v": format!("v{id}"), "ts": ts1 + 1, "r": r,
+        let d = match rng.gen_range(0..6) {
+            0 | 1 => json!({"id": id, "k": "h", "t": "hset", "f": format!("f{}", rng.gen_range(1..=3)), "v": format!("v{id}"), "ts": ts1 + 1, "r": r}),
+            2 => json!({"id": id, "k": "h", "t": "hdel", "f": format!("f{}", rng.gen_range(1..=3)), "ts": ts1 + 2, "r": r}),
+            3 => json!({"id": id, "k": format!("s{}", rng.gen_range(1..=2)), "t": "del", "ts": ts1 + 1, "r": r}),
+            _ => json!({"id": id, "k": format!("s{}", rng.gen_range(1..=2)), "t": "set", "v": format!("v{id}"), "ts": ts1 + 1, "r": r,
                         "pad": if i % 40 == 7 && id == 2 { 17 << 20 } else if rng.gen_range(0..5) == 0 { 300 } else { 0 }}),
         };
         deltas.push(d);
